@@ -264,6 +264,7 @@ func exported(r *rng, docs []Doc) []Doc {
 		md["uid"] = fmt.Sprintf("%08x-0000-4000-8000-%012x", r.u64()&0xffffffff, r.u64()&0xffffffffffff)
 		md["resourceVersion"] = fmt.Sprint(1000 + r.intn(9000))
 		md["creationTimestamp"] = "2024-05-01T10:00:00Z"
+		md["generation"] = 1 + r.intn(4)
 		if b, err := yaml.Marshal(m); err == nil {
 			out[i].Text = string(b)
 		}
@@ -860,6 +861,39 @@ func genWorld(r *rng, f Features) *World {
 						if r.chance(1, 3) {
 							rt.Spec.Port = &routev1.RoutePort{TargetPort: sp.TargetPort}
 						}
+					}
+					// the rest of what a Route may say: the weight of its backend (written or left to the server's default),
+					// a traffic split over further backends (the same service again, the previous one, a service that is
+					// not there, a backend of another kind; weights written, zero or absent), TLS, a wildcard policy
+					wt := func() *int32 {
+						switch r.intn(4) {
+						case 0:
+							return nil
+						case 1:
+							z := int32(0)
+							return &z
+						}
+						v := int32(r.between(1, 256))
+						return &v
+					}
+					if r.chance(1, 2) {
+						rt.Spec.To.Weight = wt()
+					}
+					if r.chance(1, 3) {
+						for x, nx := 0, r.between(1, 3); x < nx; x++ {
+							alt := routev1.RouteTargetReference{Kind: "Service", Name: pick(r, []string{svc, fmt.Sprintf("svc%d", (i+1)%2), "svc-not-there"}), Weight: wt()}
+							if r.chance(1, 6) {
+								alt.Kind = pick(r, []string{"", "Deployment"})
+							}
+							rt.Spec.AlternateBackends = append(rt.Spec.AlternateBackends, alt)
+						}
+					}
+					if r.chance(1, 4) {
+						rt.Spec.TLS = &routev1.TLSConfig{Termination: pick(r, []routev1.TLSTerminationType{routev1.TLSTerminationEdge, routev1.TLSTerminationPassthrough, routev1.TLSTerminationReencrypt})}
+					}
+					if r.chance(1, 6) {
+						rt.Spec.WildcardPolicy = routev1.WildcardPolicySubdomain
+						rt.Spec.Host = "w.h.example"
 					}
 					w.Docs = append(w.Docs, toDoc("Route", t.ns, rt.Name, rt))
 				}
